@@ -181,6 +181,7 @@ def run_model_and_steps(chk, prop, tier, pkey=None):
         run_steps3(chk, prop, tier, pk)
         run_steps4(chk, prop, tier, pk)
         run_steps5(chk, prop, tier, pk)
+        run_steps6(chk, prop, tier, pk)
     if pk == "C10":
         # cursor (iscan_open + iscan_next until the end, with its node-version callback) over 2-3 borders vs split, interior insert, collapse,
         # insert, remove, unlink + re-insert (YkConc4 programs k-n, p)
